@@ -7,7 +7,7 @@ sys.path.insert(0, "/verif/rules")
 from harness import Program
 from analysis import analyse
 import props
-ZERO = {"TS-6"}
+ZERO = {"TS-6", "GUARD-1"}
 # anchor kinds that exist only for one of several accepted idioms (the verdict as `any` has a search closure, as a loop it has none)
 OPTIONAL = {("ITER-1", "search-closure"), ("ITER-1", "pure-search-exit"), ("ITER-1", "worklist-resumed")}
 td = tempfile.mkdtemp(prefix="verif-floors-")
